@@ -213,9 +213,10 @@ pub fn cfg_strategy() -> BoxedStrategy<SvgCfg> {
         warm_strategy(),
         prop_oneof![1 => Just(0u8), 1 => any::<u8>()],
         prop_oneof![1 => Just((None, None, None)), 1 => crate::svgcase::image_geometry()],
+        prop_oneof![5 => Just(0u8), 2 => 1u8..=4],
     )
-        .prop_map(|(margin, layers, module_color, background, image, bgs, warm, order, (image_size, image_gap, image_position))| SvgCfg {
-            margin, layers, module_color, background, image, image_bg_shape: bgs, warm, order, image_size, image_gap, image_position, ..SvgCfg::default()
+        .prop_map(|(margin, layers, module_color, background, image, bgs, warm, order, (image_size, image_gap, image_position), pred)| SvgCfg {
+            margin, layers, module_color, background, image, image_bg_shape: bgs, warm, order, image_size, image_gap, image_position, pred, ..SvgCfg::default()
         })
         .boxed()
 }
